@@ -63,6 +63,7 @@ def run_one(mod, pid, case):
     h = zlib.crc32(repr(case).encode())
     H.DEBUG_DEFAULT = h % 5 == 0
     H.LOOP_DEBUG_DEFAULT = h % 11 == 3
+    H.POLL_DEFAULT = h % 3 == 1
     try:
         if isinstance(case, dict) and case.get("k") == "soak":
             from . import soak
@@ -79,6 +80,7 @@ def run_one(mod, pid, case):
     finally:
         H.DEBUG_DEFAULT = False
         H.LOOP_DEBUG_DEFAULT = False
+        H.POLL_DEFAULT = False
 
 
 def worker(pid, tier, seed, shard, nshards, out_path, budget_s):
@@ -110,6 +112,9 @@ def worker(pid, tier, seed, shard, nshards, out_path, budget_s):
                     break
                 continue
             res["cases"] += 1
+            if sys.flags.optimize:
+                res["obs"]["cases_run_under_python_O"] = res["obs"].get(
+                    "cases_run_under_python_O", 0) + 1
             res["evals"] += r.get("evals", 1)
             res["decided"] += r.get("decided", 0)
             if "fps" in r:
@@ -126,7 +131,8 @@ def worker(pid, tier, seed, shard, nshards, out_path, budget_s):
                 m = v["mechanism"]
                 res["mech_counts"][m] = res["mech_counts"].get(m, 0) + 1
                 if res["mech_counts"][m] <= 3:
-                    res["violations"].append({"case": case, "mechanism": m,
+                    res["violations"].append({"optimize": sys.flags.optimize,
+                                              "case": case, "mechanism": m,
                                               "detail": H.jsonable(v.get("detail")),
                                               "log": v.get("log")})
                 if not known_match(known, pid, m):
@@ -154,7 +160,7 @@ def write_replay(pid, tier, seed, v):
     os.makedirs(os.path.join(VERIF, "replays"), exist_ok=True)
     body = {"property": pid, "tier": tier, "seed": seed, "mechanism": v["mechanism"],
             "case": H.jsonable(v["case"]), "case_pickle": pickle.dumps(v["case"]).hex(),
-            "detail": v["detail"], "log": v.get("log")}
+            "detail": v["detail"], "log": v.get("log"), "optimize": v.get("optimize", 0)}
     h = hashlib.blake2b(json.dumps(body["case"], sort_keys=True).encode()
                         + v["mechanism"].encode(), digest_size=6).hexdigest()
     path = os.path.join(VERIF, "replays", f"{pid}-{h}.json")
@@ -185,8 +191,11 @@ def run_check(pid, tier, seed, procs):
     env = dict(os.environ)
 
     def launch(i):
-        cmd = [sys.executable, "-m", "vf.runner", "--worker", pid, tier, str(seed), str(i),
-               str(nshards), outs[i], str(budget)]
+        # every fourth shard runs under "python -O" (assert statements compiled out): one
+        # more setting of the application's environment the client must not depend on
+        cmd = [sys.executable] + (["-O"] if i % 4 == 3 else []) + [
+            "-m", "vf.runner", "--worker", pid, tier, str(seed), str(i),
+            str(nshards), outs[i], str(budget)]
         try:
             p = subprocess.run(cmd, cwd=VERIF, env=env, capture_output=True, text=True,
                                timeout=budget * 2 + 120)
@@ -324,6 +333,10 @@ def replay(pid, path):
     mod = load_prop(pid)
     with open(path) as f:
         body = json.load(f)
+    if body.get("optimize") and not sys.flags.optimize:
+        # found under "python -O": replay it the same way
+        return subprocess.run([sys.executable, "-O", "-m", "vf.runner", pid, "--replay", path],
+                              cwd=VERIF).returncode
     case = pickle.loads(bytes.fromhex(body["case_pickle"]))
     r = run_one(mod, pid, case)
     known = load_known()
